@@ -7,6 +7,7 @@ import AGV.Props.C03
 #print axioms AGV.Props.C03.c03_list_path_witness
 #print axioms AGV.Props.C03.c03_iface_path_witness
 #print axioms AGV.Props.C03.c03_repeated_key_error_witness
-#print axioms AGV.Props.C03.c03_full_refuted
+#print axioms AGV.Props.C03.c03_full_needs_validity
+#print axioms AGV.Props.C03.c03_repeated_key_error_repaired_example
 #print axioms AGV.Props.C03.c03_partial_nodup
 #print axioms AGV.Props.C03.c03_partial_nodup_example
